@@ -436,12 +436,115 @@ Definition exit_blocked (s : State) : list (Key * Z) :=
 Definition claim_blocked (s : State) : list (Key * Z) :=
   filter (fun kz => negb (snd kz =? 0)) (map (fun kv => (fst kv, probe_claim s (fst kv))) (delegations s)).
 
+(* ---------- C04 position isolation ---------- *)
+(* tolerance of an operation on denom [dn]: base units for the truncations of the values and the
+   0.01 rounder, plus the 18-digit relative error: (i) every value is a product of 18-digit ratios
+   with the asset's staked total, (ii) the shares issued / removed for the amount are amount x an
+   18-digit shares-per-token ratio r, whose absolute error 1.5*10^-18 costs 1.5*amount/r tokens,
+   for the delegator-share ratio of the validators involved and for the asset's validator-share
+   ratio (NumFacts: dmul_bounds, dquo_bounds).  With ratios near 1 the last two terms vanish. *)
+(* shares issued per token, as the code computes it (18 digits): for a validator's delegator
+   shares and for the asset's validator shares; 0 when undefined *)
+Definition ratio_del (s : State) (v dn : Z) : Z :=
+  match kget (assets s) [dn] with
+  | Some a => let vi := vinfo_or_empty s v in
+              let tds := camount (vi_dshares vi) dn in let vt := val_tokens a vi in
+              if (0 <? tds) && (0 <? vt) then dquo tds vt else 0
+  | None => 0
+  end.
+Definition ratio_val (s : State) (dn : Z) : Z :=
+  match kget (assets s) [dn] with
+  | Some a => if (0 <? a_vshares a) && (0 <? a_tokens a) then dquo (a_vshares a) (dec_of_int (a_tokens a)) else 0
+  | None => 0
+  end.
+Definition op_denom (o : Op) : Z :=
+  match o with
+  | ODelegate _ _ dn _ | OUndelegate _ _ dn _ | ORedelegate _ _ _ dn _ | OClaim _ _ dn => dn
+  | _ => -1
+  end.
+Definition op_validators (o : Op) : list Z :=
+  match o with
+  | ODelegate _ v _ _ | OUndelegate _ v _ _ => [v]
+  | ORedelegate _ src dst _ _ => [src; dst]
+  | _ => []
+  end.
+Definition op_amount (o : Op) : Z :=
+  match o with
+  | ODelegate _ _ _ a | OUndelegate _ _ _ a | ORedelegate _ _ _ _ a => a
+  | _ => 0
+  end.
+Definition min_pos (l : list Z) : Z :=   (* smallest element, at least 1 *)
+  fold_right (fun x acc => Z.max 1 (Z.min x acc)) PREC l.
+Definition tau_C04_op (pre post : State) (o : Op) : Z :=
+  let dn := op_denom o in
+  let amt := op_amount o in
+  let rd := min_pos (flat_map (fun v => [ratio_del pre v dn; ratio_del post v dn]) (op_validators o)) in
+  let rv := min_pos [ratio_val pre dn; ratio_val post dn] in
+  3 + 8 * (Z.max (staked_total pre dn) (staked_total post dn) / PREC) + 4 * amt / rd + 4 * amt / rv.
+Definition tau_C04 (pre post : State) (dn : Z) : Z :=
+  2 + 8 * (Z.max (staked_total pre dn) (staked_total post dn) / PREC).
+Definition expected_delta (o : Op) (k : Key) : Z :=
+  match o with
+  | ODelegate del v dn a => if keqb k [del; v; dn] then a else 0
+  | OUndelegate del v dn a => if keqb k [del; v; dn] then - a else 0
+  | ORedelegate del src dst dn a => if keqb k [del; src; dn] then - a else if keqb k [del; dst; dn] then a else 0
+  | _ => 0
+  end.
+Definition pos_keys (pre post : State) : list Key :=
+  fold_right (fun k acc => if key_in k acc then acc else k :: acc) [] (map fst (delegations pre) ++ map fst (delegations post)).
+Definition check_C04 (pre : State) (o : Op) (c : Z) (post : State) : list Z :=
+  match o with
+  | OClaim _ _ _ =>
+    (* a claim moves no value at all (theorem C04_claim_moves_no_value), whatever its outcome *)
+    clause 1 (forallb (fun k => reported_balance post k =? reported_balance pre k) (pos_keys pre post))
+  | ODelegate _ _ _ _ | OUndelegate _ _ _ _ | ORedelegate _ _ _ _ _ =>
+    if c =? R_OK then
+      let dn := op_denom o in
+      (* positions in other assets: untouched exactly *)
+      clause 2 (forallb (fun k => match k with
+                                  | [_; _; d] => (d =? dn) || (reported_balance post k =? reported_balance pre k)
+                                  | _ => true end) (pos_keys pre post))
+      (* the actor's position(s) move by the amount, everybody else's by nothing, within tau.
+         Two states in which the code is known to hand value to the entering delegator are told
+         apart (clauses 31, 32) so that a listed finding does not excuse anything else:
+           31: the validator entered has less than one delegator share of the asset while its
+               stake there is worth a token or more (the "empty validator: one share per token"
+               shortcut of GetDelegationSharesFromTokens dilutes what is left);
+           32: the asset has no validator shares at all while tokens are staked (after a 100%
+               slash of every staked validator): the first validator share captures the total. *)
+      ++ (let ok := forallb (fun k => match k with
+                                     | [_; _; d] => negb (d =? dn) ||
+                                        (Z.abs (reported_balance post k - reported_balance pre k - expected_delta o k) <=? tau_C04_op pre post o)
+                                     | _ => true end) (pos_keys pre post) in
+          if ok then []
+          else if (ratio_val pre dn =? 0) && (0 <? staked_total pre dn) then [32]
+          else if existsb (fun v => match kget (assets pre) [dn] with
+                                    | Some a => let vi := vinfo_or_empty pre v in
+                                                (dtrunc (camount (vi_dshares vi) dn) =? 0) && (0 <? dtrunc (val_tokens a vi))
+                                    | None => false end)
+                          (match o with ODelegate _ v _ _ => [v] | ORedelegate _ _ dst _ _ => [dst] | _ => [] end)
+               then [31]
+          else [3])
+    else []
+  | _ => []
+  end.
+
+(* diagnostics for a failing clause 3: (position, value before, value after, expected change, tolerance) *)
+Definition c04_detail (pre : State) (o : Op) (post : State) : list (list Z) :=
+  let dn := op_denom o in
+  flat_map (fun k => match k with
+                     | [_; _; d] =>
+                       if (d =? dn) && negb (Z.abs (reported_balance post k - reported_balance pre k - expected_delta o k) <=? tau_C04_op pre post o)
+                       then [k ++ [reported_balance pre k; reported_balance post k; expected_delta o k; tau_C04_op pre post o]] else []
+                     | _ => [] end) (pos_keys pre post).
+
 (* ---------- dispatcher ---------- *)
 Definition check_step (p : Z) (pre : State) (o : Op) (c : Z) (post : State) : list Z :=
   match p with
   | 1 => check_C01 pre o c post
   | 2 => check_C02 pre o c post
   | 3 => check_C03 pre o c post
+  | 4 => check_C04 pre o c post
   | 6 => check_C06 pre o c post
   | 7 => check_C07 pre o c post
   | 8 => check_C08 pre o c post
